@@ -25,8 +25,10 @@ def run(pid, tier, seed):
         raise vlib.Inconclusive("vacuity guard: a watcher that does not restore the deadline should violate NoLeftoverDeadline")
     rep.notes.append("vacuity guard: MC_NetCtxBroken violates NoLeftoverDeadline as expected")
     big = tier == "thorough"
-    scs = [{"kind": k, "dir": d_, "ops": ops, "feeds": 2, "deadline": dl}
-           for k in ("conn", "connctx", "pconn") for d_ in ("r", "w") for ops in ((2,) if not big else (2, 3))
+    # (ops, feeds): with fewer feeds than operations a cancelled operation cannot be rescued by data arriving later
+    shapes = ((2, 2), (1, 0), (2, 1)) if not big else ((2, 2), (3, 2), (1, 0), (2, 1), (3, 1))
+    scs = [{"kind": k, "dir": d_, "ops": ops, "feeds": feeds, "deadline": dl}
+           for k in ("conn", "connctx", "pconn") for d_ in ("r", "w") for ops, feeds in shapes
            for dl in (False, True)]
     d = vlib.scratch("ctx-")
     scen = os.path.join(d, "scen.ndjson")
